@@ -29,6 +29,12 @@ sys.path.insert(0, VERIF)
 if REPO != "/repo":
     sys.path.insert(0, REPO)
 
+import resource                                         # noqa: E402
+try:      # a counterexample with absurd sizes must not take the machine down
+    resource.setrlimit(resource.RLIMIT_AS, (8 << 30, 8 << 30))
+    resource.setrlimit(resource.RLIMIT_CPU, (300, 320))
+except Exception:
+    pass
 import numpy as np                                      # noqa: E402
 
 from pyvc import contracts as C                         # noqa: E402
